@@ -4,6 +4,11 @@ CONSTANTS
   Ordering = "minmax"
   ZS = 100
   Z <- MCZ
+  TK = {5,6,8,10,12,16,20,25,30,34,40,47,50,52,53,54,55,60,64,80,100,200,332,500,997,1000,1022,1023,1050,1074}
+  HiMax = 53
+  ZTS = 100
+  ZT <- MCZT
+  Delivery = "by_prior"
   QNum = {0,2,7,10,11,12,13,15,17,24,112,1012}
   QShift = 12
   QDen = {1,2,4,8}
@@ -13,7 +18,10 @@ CONSTANTS
   SDen = {1,4,10}
   Export = FALSE
 INVARIANT ZOk
+INVARIANT TZOk
 INVARIANT MonotoneInv
+INVARIANT TailMonotoneInv
+INVARIANT TailSymmetricInv
 INVARIANT OntoSupportInv
 INVARIANT InverseCDFInv
 INVARIANT LinArgsInv
